@@ -72,6 +72,7 @@ type verifCronOpts struct {
 	varyWindow  bool // notBefore / notAfter
 	maxMissedHi int64
 	unsetMax    bool // also explore maxMissedSchedules unset (default 5)
+	mayEnd      bool // an expression may have no further match (zero time)
 }
 
 func verifSetupCron(o verifCronOpts) *verifCronEnv {
@@ -148,7 +149,7 @@ func verifSetupCron(o verifCronOpts) *verifCronEnv {
 		v.loc = l
 		for k := 0; k < K; k++ {
 			line := []string{"x", "y"}[k]
-			e := &vz.SymExpr{Name: "expr" + verifKeys[j] + line, NeverEnds: !vz.Thorough(), ExpectLoc: l, CheckLoc: true}
+			e := &vz.SymExpr{Name: "expr" + verifKeys[j] + line, NeverEnds: !(vz.Thorough() || o.mayEnd), ExpectLoc: l, CheckLoc: true}
 			v.exprs = append(v.exprs, e)
 			env.exprs[v.key+"|"+line] = e
 		}
@@ -319,7 +320,7 @@ func VerifH_C01_L2_work() {
 // VerifH_C01_L2_workMulti: one JobConfig with two cron lines; the heap priority
 // is the earlier of the two next matches.
 func VerifH_C01_L2_workMulti() {
-	env := verifSetupCron(verifCronOpts{P: 1, K: 2, witness: true, varyWindow: vz.Thorough(), maxMissedHi: 2})
+	env := verifSetupCron(verifCronOpts{P: 1, K: 2, witness: true, varyWindow: vz.Thorough(), maxMissedHi: 2, mayEnd: true})
 	now := vz.Instant("now")
 	env.verifClock(now, (env.maxCount+2)+2)
 	env.worker.Work()
